@@ -66,6 +66,41 @@ func rewriteClock(fset *token.FileSet, filename string, src []byte) ([]byte, boo
 	}
 	hasTime := !(timeName == "" || timeName == "_" || timeName == ".")
 	changed := false
+	// sync/atomic calls become verifrt.AtomicX(...): scheduling points of the cooperative replay scheduler
+	atomicName := ""
+	for _, im := range f.Imports {
+		if im.Path.Value == `"sync/atomic"` {
+			atomicName = "atomic"
+			if im.Name != nil {
+				atomicName = im.Name.Name
+			}
+		}
+	}
+	atomicLeft := false
+	if atomicName != "" && atomicName != "_" && atomicName != "." {
+		ast.Inspect(f, func(n ast.Node) bool {
+			sel, ok := n.(*ast.SelectorExpr)
+			if !ok {
+				return true
+			}
+			id, ok := sel.X.(*ast.Ident)
+			if !ok || id.Name != atomicName || id.Obj != nil {
+				return true
+			}
+			for _, pre := range []string{"Add", "Load", "Store", "Swap", "CompareAndSwap"} {
+				for _, ty := range []string{"Int32", "Int64", "Uint32", "Uint64", "Uintptr"} {
+					if sel.Sel.Name == pre+ty {
+						id.Name = "verifrt"
+						sel.Sel.Name = "Atomic" + pre + ty
+						changed = true
+						return true
+					}
+				}
+			}
+			atomicLeft = true
+			return true
+		})
+	}
 	// mutex acquisitions in statement position become verifrt.Lock(&x) / verifrt.RLock(&x)
 	// (scheduling points of the cooperative replay scheduler; plain x.Lock() otherwise)
 	ast.Inspect(f, func(n ast.Node) bool {
@@ -118,6 +153,9 @@ func rewriteClock(fset *token.FileSet, filename string, src []byte) ([]byte, boo
 	}
 	if hasTime {
 		buf.WriteString("\nvar _ = " + timeName + ".Second\n")
+	}
+	if atomicName != "" && atomicName != "_" && atomicName != "." && !atomicLeft {
+		buf.WriteString("\nvar _ = " + atomicName + ".LoadInt32\n")
 	}
 	return buf.Bytes(), true, nil
 }
@@ -284,6 +322,15 @@ func TestVerifReplay(t *testing.T) {
 			verifrt.Scheduled = true
 			fmt.Sscan(os.Getenv("VERIF_SCHED"), &attempts)
 		}
+		freeAttempts := 0
+		if os.Getenv("VERIF_FREE_ATTEMPTS") != "" {
+			// data-race replays: real goroutines, many attempts, the race detector is the oracle
+			fmt.Sscan(os.Getenv("VERIF_FREE_ATTEMPTS"), &freeAttempts)
+			for a := 0; a < freeAttempts; a++ {
+				verifrt.LoadValues(vals)
+				verifrt.Run(func() { f(c.Args) })
+			}
+		}
 		out := ""
 		for a := 0; a < attempts; a++ {
 			verifrt.LoadValues(vals)
@@ -357,6 +404,9 @@ func (n *NativeRunner) RunSched(pkgPath string, cases []NativeCase, race bool, t
 	cmd.Env = append(os.Environ(), "GOFLAGS=-mod=mod", "GOPROXY=off", "GOSUMDB=off", "GOTOOLCHAIN=local", "VERIF_CASES="+cf)
 	if schedAttempts > 0 {
 		cmd.Env = append(cmd.Env, fmt.Sprintf("VERIF_SCHED=%d", schedAttempts))
+	}
+	if race {
+		cmd.Env = append(cmd.Env, "VERIF_FREE_ATTEMPTS=400")
 	}
 	out, err := cmd.CombinedOutput()
 	txt := string(out)
